@@ -19,6 +19,13 @@
 (*   (what the code does now).                                             *)
 (* HoldFix = FALSE: the original rule - hold back from the earliest of the *)
 (*   last CR / last LF, however far back (unbounded buffering; witness).   *)
+(* OpenFix = TRUE : while the text "--boundary" is buffered but no          *)
+(*   delimiter LINE is complete, hold back only a delimiter line that is   *)
+(*   still open at the end of the buffer (line break, "--boundary", then   *)
+(*   one '-' or blanks up to the end), else as under HoldFix.              *)
+(* OpenFix = FALSE: the original rule for that branch (earliest of last CR *)
+(*   / last LF): part data "LF--boundaryX..." without a further line break *)
+(*   is buffered whole (witness).                                          *)
 (***************************************************************************)
 EXTENDS Naturals, Sequences, FiniteSets
 
@@ -27,7 +34,7 @@ CONSTANTS Bnd,          \* boundary, a sequence of symbols from {"b","c","d"}
           Preambles,    \* set of preambles (symbol sequences without line-break+delimiter), <<>> = none
           MaxChunk,     \* receive_data() gets 0..MaxChunk symbols at a time
           Limits,       \* set of [parts |-> max_form_parts, mem |-> max_form_memory_size]  (Unlimited = 99)
-          HoldFix
+          HoldFix, OpenFix
 
 VARIABLES form, pre, lim,      \* the scenario (fixed)
           body, pos,           \* encoded body and how much of it has been fed
@@ -90,6 +97,16 @@ PartialStart(s) ==
   LET from == IF Len(s) > Window THEN Len(s) - Window + 1 ELSE 1
       hits == {i \in from..Len(s) : s[i] \in {"r", "n"}} IN
   IF hits = {} THEN Len(s) ELSE MinOf(hits) - 1
+\* number of symbols before a delimiter line that is still open at the end of s; 0 - 1 = none  (regex: LB "--" boundary ( "-" | ws* ) \Z)
+OpenAt(s, i) == LET l == LBLen(s, i)
+                    j == i + l + Len(Delim) IN      \* first position after the delimiter text
+                /\ l > 0 /\ HasDelimAt(s, i + l)
+                /\ \/ j = Len(s) + 1
+                   \/ (j = Len(s) /\ s[j] = "d")
+                   \/ \A k \in j..Len(s) : s[k] = "s"
+OpenStart(s) == LET hits == {i \in 1..Len(s) : OpenAt(s, i)} IN
+                IF hits = {} THEN PartialStart(s) ELSE MinOf(hits) - 1
+UndecidedHold(s) == IF OpenFix THEN OpenStart(s) ELSE LastNewline(s)
 Take(s, k) == SubSeq(s, 1, k)
 Drop(s, k) == SubSeq(s, k + 1, Len(s))
 
@@ -147,7 +164,7 @@ StepData ==
             IF hold > 0 THEN OnData(Take(buf, hold), TRUE, st, Drop(buf, hold)) ELSE NeedData
        ELSE LET m == Search(buf, FALSE) IN
             IF m.s > 0 THEN OnData(Take(buf, m.s - 1), FALSE, IF m.f THEN "EPILOGUE" ELSE "PART", Drop(buf, m.e - 1))
-            ELSE LET hold == LastNewline(buf) IN
+            ELSE LET hold == UndecidedHold(buf) IN
                  IF hold > 0 THEN OnData(Take(buf, hold), TRUE, st, Drop(buf, hold)) ELSE NeedData
 
 \* EPILOGUE: nothing more to emit until the input is complete (the helpers never signal completion)
